@@ -981,7 +981,9 @@ READBACK_VALUES = ["plain", "a,b", "a;b", "a\tb", "a|b", "a:b", 'q"q', "x y", ""
                    "l\nf", " lead", "trail ", "'q'", 'a "q" b', "\u00e9\U0001f600", "=1+1", "c\r\nd", "cr\rx"]
 READBACK_OPTS = [{}, {"fields": "_source,s,u"}, {"fields": "_source,s"}, {"fields": "_generated,s,u"}, {"fields": "s,u"},
                  {"fields": "u,n,s"}, {"exclude": "_source,_classification,_generated,_version"}, {"exclude": "s,u,n"},
-                 {"lineterminator": "\\n"}, {"fields": "s,u", "lineterminator": "\\n"}]
+                 {"lineterminator": "\\n"}, {"fields": "s,u", "lineterminator": "\\n"},
+                 # ONE column (nothing for a dialect guess to hold on to), also a reserved one
+                 {"fields": "s"}, {"fields": "u"}, {"fields": "n"}, {"fields": "_source"}, {"fields": "s", "lineterminator": "\\n"}]
 
 
 def readback_files(rnd, n, workdir):
@@ -1004,6 +1006,16 @@ def readback_files(rnd, n, workdir):
         data, err, _ = run_writer("csvfile", os.path.join(workdir, "rb%d.csv" % k), recs, o)
         if data is not None:
             out.append(data)
+    # one-column files: one row / several rows, values with and without the letters of the header (a dialect guess picks
+    # a letter that every line holds equally often, or gives up)
+    H = RecordDescriptor("rb/host", [("string", "hostname"), ("string", "s")])
+    for k, vals in enumerate([["srv01"], ["hostname"], ["web name", "host name"], ["xyz", "qqq", "kkk"], ["a,b"], ["one", "tone", "stone"],
+                              ["", "x"], ["me", "men", "mend"], [rnd.choice(READBACK_VALUES[:13]) for _ in range(rnd.randint(1, 5))]]):
+        recs = [H(hostname=v, s="other", _generated=TS) for v in vals]
+        for o in ({"fields": "hostname"}, {"fields": "hostname", "lineterminator": "\\n"}):
+            data, err, _ = run_writer("csvfile", os.path.join(workdir, "rb1c%d.csv" % k), recs, o)
+            if data is not None:
+                out.append(data)
     return out
 
 
@@ -1032,6 +1044,8 @@ def read_cases(ctx, rep, rnd, n, workdir, written):
         for r in rows:
             w.writerow(r)
         files.append((s.getvalue(), d, ",".join(hdr) if use_fields else None, "hand"))
+    for text in ("hostname\r\n", "hostname\r\nsrv01\r\n", "name\nalice\nbob\n", "my-col\r\nx y\r\nz\r\n", "k1\r\n1\r\n22\r\n333\r\n"):
+        files.append((text, ",", None, "hand"))           # one column, also without any data row
     for data in written:
         files.append((data.decode("utf-8"), ",", None, "writer"))
     sniffed_ok = 0
@@ -1179,6 +1193,23 @@ def regression_checks(rep, workdir, only=None):
                          "CsvfileReader on the file CsvfileWriter(%r) wrote for <w/two s,u> = %r (bytes %r): %r, expected the text values back" % (
                              o, rows, data, back), dict(kind="regression", which="reader-dialect", opts=o, rows=rows, got=repr(back)))
                 break
+        else:
+            Hh = RecordDescriptor("w/host", [("string", "hostname"), ("string", "s")])
+            for vals in (["srv01"], ["hostname", "web name"], ["me", "men"]):
+                recs = [Hh(hostname=v, s="other", _generated=TS) for v in vals]
+                data, err, en = run_writer("csvfile", p("g6.csv"), recs, {"fields": "hostname"})
+                try:
+                    with RecordReader("csvfile://" + p("g6.csv")) as rd:
+                        back = ([k for k in rd.desc.fields], [[getattr(r, k) for k in r._desc.fields] for r in rd])
+                except Exception as e:  # noqa
+                    back = "%s: %s" % (type(e).__name__, e)
+                if data is None or back != (["hostname"], [[v] for v in vals]):
+                    rep.fail(dict(writer="reader", cls="values-differ"),
+                             "CsvfileReader on the ONE-column file CsvfileWriter(fields='hostname') wrote for hostname = %r (bytes %r): %r, "
+                             "expected field ['hostname'] with those values" % (vals, data, back),
+                             dict(kind="regression", which="reader-dialect", opts={"fields": "hostname"}, rows=vals, got=repr(back),
+                                  file=None if data is None else data.decode("utf-8", "replace")))
+                    break
     if only in (None, "nested-group-name"):
         N = RecordDescriptor("w/named4", [("string", "name"), ("varint", "records"), ("string", "descriptors"), ("string", "flat_fields")])
         O = RecordDescriptor("w/other", [("string", "x")])
